@@ -2741,6 +2741,84 @@ def c16_ops_unwrap(env, ob):
     return result(ob, "discharged", **kw)
 
 
+STR_CUT = re.compile(r"<(?:str|String|std::string::String) as Index(?:Mut)?<Range(?:To|From|ToInclusive|Inclusive)?<usize>>>::index(?:_mut)?$"
+                     r"|::split_at(?:_mut)?$|^String::(?:truncate|split_off|insert|insert_str|remove|replace_range|drain)$")
+STR_BOUNDARY_SOURCES = re.compile(r"::(?:len|find|rfind|floor_char_boundary|ceil_char_boundary|len_utf8|position|rposition|offset)$"
+                                  r"|char_indices|CharIndices|::(?:find|rfind)::<")
+
+
+@obligation(id="C16.client_text_is_cut_at_character_boundaries", funcs="every function of the crate that slices a str / String by a byte range",
+            bounds="every path of each such function (loops unrolled twice), the text being ANY string; an offset is accepted "
+                   "when it is the value returned by len/find/rfind/char_indices/position/*_char_boundary (possibly plus a "
+                   "len_utf8), everything else - constants, arithmetic on constants - is a cut that can land inside a "
+                   "multi-byte character; planner::exporter::summarize_expr is exempt (it clips format_expr's output, which "
+                   "is ASCII: literals print as byte lists - checked natively at every offset)",
+            native="c16_text_clipped_inside_a_character")
+def c16_str_cut(env, ob):
+    """SQL text is UTF-8 and comes from the client: identifiers and literals hold any character.  `&text[..N]` with an N that
+    does not come from the text itself panics when byte N is inside a character - in a Display impl that means the error
+    path of the parser panics inside the worker."""
+    exempt = {"summarize_expr"}
+    bad, inc, total, nq, nfun, nsites = [], [], 0, 0, 0, 0
+    pat = re.compile(r"= (<(?:str|String|std::string::String) as Index(?:Mut)?<Range\w*<usize>>>::index(?:_mut)?|"
+                     r"core::str::<impl str>::split_at(?:_mut)?|String::(?:truncate|split_off|insert|insert_str|remove|replace_range|drain))\(")
+    for h, s_, e_ in env.mir.funcs:
+        body = env.mir.lines[s_ + 1:e_]
+        if not any(pat.search(l) for l in body):
+            continue
+        m = re.match(r"^fn (.*?)\(_1", h) or re.match(r"^fn (.*?)\(", h)
+        name = m.group(1) if m else h[:60]
+        if name.split("::")[-1] in exempt or "__verif" in h:
+            continue
+        nfun += 1
+        f = mirsmt.Func(h, body)
+        ctx = mirsmt.Ctx()
+        ex = mirsmt.Executor(env.mir, ctx, models=dict(COMMON_MODELS), loop_bound=2, max_paths=20000)
+        try:
+            res = ex.run(f, [ctx.sym("p%d" % i, t) for i, (n, t) in enumerate(f.params)])
+        except Unsupported as e:
+            inc.append(f"{name}: {str(e)[:80]}")
+            continue
+        total += len(res)
+        qs = []
+        for path, rv in res:
+            ok_terms = set()
+            for e in path.events:
+                r = e.get("ret")
+                if STR_BOUNDARY_SOURCES.search(e["callee"]) and r is not None and hasattr(r, "term"):
+                    ok_terms.add(r.term)
+                if not STR_CUT.search(e["callee"]):
+                    continue
+                nsites += 1
+                offs = []
+                for a in e["args"][1:]:
+                    if isinstance(a, Agg):
+                        offs += [c.val for c in a.fields.values()]
+                    else:
+                        offs.append(a)
+                for o in offs:
+                    t = getattr(o, "term", None)      # a named constant shows up as an opaque aggregate: not from the text
+                    if t is not None and (t in ok_terms or t == bvconst(0, 64)):
+                        continue
+                    qs.append(conj(e.get("pc_prefix", path.pc)))
+        if qs:
+            chk = env.check(ctx, [disj(sorted(set(qs)))])
+            nq += 1
+            if chk[0]["verdict"] == "sat":
+                bad.append(name)
+            elif chk[0]["verdict"] != "unsat":
+                inc.append(f"{name}: {chk[0]['verdict']}")
+    kw = dict(paths=total, queries=max(nq, 1), events={"functions_with_a_cut": nfun, "cut_sites_on_paths": nsites})
+    if bad:
+        return result(ob, "violated", failed=[f"text_cut_at_a_byte_offset[{b}]" for b in sorted(set(bad))],
+                      cex={"what": "a str is sliced at an offset that does not come from the text", "functions": sorted(set(bad))}, **kw)
+    if inc:
+        return result(ob, "inconclusive", reason="; ".join(inc)[:300], **kw)
+    if not any("summarize_expr" in h for h, _, _ in env.mir.funcs):
+        return result(ob, "inconclusive", reason="vacuity: the exempt clip site is not in the dump (scan pattern stale?)", **kw)
+    return result(ob, "discharged", **kw)
+
+
 # ---------------------------------------------------------------------------------------------------------------------
 # C08: recovery is ordered, ends by emptying the log only after it succeeded, and its redo can be repeated
 # ---------------------------------------------------------------------------------------------------------------------
